@@ -90,6 +90,14 @@ def clauses_structure(c, H, P, timing=False, lifecycle=True, order=True):
             c.prove(f"{P}.leave sequence", lev == exp_leave, info=dict(segment=si, mode=mode, got=lev, expected=exp_leave))
             for e in cbs(sg.enter):
                 c.prove(f"{P}.ntmode callback-sees-running-mode", e[4] == mode, info=dict(site=e[1], nt=e[4], mode=mode))
+        if timing:
+            # the period grid of a mode is anchored after the mode has been entered: no entry callback (components'
+            # on_enable, the init hook, the autonomous mode's on_enable) runs on the loop's clock
+            di = [i for i, e in enumerate(sg.enter) if e[0] == "delay_init"]
+            if di:
+                late = [e[1] for e in sg.enter[di[0] + 1:] if e[0] == "cb"]
+                c.reach("grid-anchor")
+                c.prove(f"{P}.timing grid-anchored-after-mode-entry", not late, info=dict(segment=si, mode=mode, entry_callbacks_after_the_delay_was_created=late))
         # bracket (C06): execute only between on_enable and on_disable
         for e in cbs(sg.enter) + [x for it in sg.iters for x in cbs(it.events)] + cbs(sg.leave):
             s = e[1]
